@@ -63,7 +63,12 @@ def eqhash_witness(prop, failures, repo, verif, workdir, seed, log):
         return {"found": True, "kind": r["kind"], "input": r["input"], "detail": r["detail"], "inputs_tried": r["tried"], "search_s": round(time.time() - t0, 1),
                 "replays_on": "real crate built from the checked tree; pairs of boxed sources with observer histories"}
     log(f"  witness search: no incoherent pair/history among {r['tried']}")
-    return {"found": False, "inputs_tried": r["tried"], "search_s": round(time.time() - t0, 1)}
+    # "every observer returns the same answer each time it is called on an unchanged value" - the ReplaceSource history
+    # search (value and a diverging clone, all content views) belongs to C14 as well
+    r2 = replace_witness(prop, failures, repo, verif, workdir, seed, log)
+    if r2.get("found"):
+        return r2
+    return {"found": False, "inputs_tried": r["tried"] + r2.get("inputs_tried", 0), "search_s": round(time.time() - t0, 1)}
 
 
 def wildmap_witness(prop, failures, repo, verif, workdir, seed, log):
